@@ -14,6 +14,9 @@ from typing import Any, Callable, Dict, List, Optional, Sequence, Tuple
 
 HERE = os.path.dirname(os.path.abspath(__file__))
 VERIF = os.path.abspath(os.path.join(HERE, ".."))
+# evidence goes to /verif/evidence; experiments on a modified /repo (tools/try_patch.sh, tools/seed_matrix.sh) redirect it
+# so that the committed evidence always describes the unchanged tree
+EVIDENCE_DIR = os.environ.get("VERIF_EVIDENCE_DIR") or os.path.join(VERIF, "evidence")
 LEAN = os.path.join(VERIF, "lean")
 DRIVER = os.path.join(LEAN, ".lake", "build", "bin", "mimic-driver")
 ALLOWED_AXIOMS = {"propext", "Classical.choice", "Quot.sound"}
@@ -192,8 +195,8 @@ def guarded(prop_id: str, main: Callable[[], None]):
                   coverage=dict(obligations=1, discharged=0, checker_cmd="harness crashed before the proof obligations were checked",
                                 trusted_base=[], evaluations=1, distinct_nontrivial=2, explanation="harness crash: " + repr(e)),
                   wall_s=0.0, violations=1)
-        os.makedirs(os.path.join(VERIF, "evidence"), exist_ok=True)
-        json.dump(ev, open(os.path.join(VERIF, "evidence", f"{prop_id}.json"), "w"), indent=1)
+        os.makedirs(EVIDENCE_DIR, exist_ok=True)
+        json.dump(ev, open(os.path.join(EVIDENCE_DIR, f"{prop_id}.json"), "w"), indent=1)
         print(f"VIOLATION property={prop_id} replay={replay} no-failing-input-found")
         print(tb[-1500:], file=sys.stderr)
         sys.exit(1)
@@ -375,8 +378,8 @@ class Check:
             violations=viol,
             known_findings=[kh["finding"]["defect"] for kh in self.known_hits][:20],
         )
-        os.makedirs(os.path.join(VERIF, "evidence"), exist_ok=True)
-        json.dump(ev, open(os.path.join(VERIF, "evidence", f"{self.id}.json"), "w"), indent=1, default=repr)
+        os.makedirs(EVIDENCE_DIR, exist_ok=True)
+        json.dump(ev, open(os.path.join(EVIDENCE_DIR, f"{self.id}.json"), "w"), indent=1, default=repr)
         for l in lines:
             print(l)
         print(f"[{self.id}] tier={self.tier} seed={self.seed} theorems={len(tr['theorems'])} tie_ok={proof_ok} "
